@@ -133,9 +133,6 @@ impl<'u, 'de> serde::Deserializer<'de> for &'u mut CookieDeserializer<'de> {
     /// when the visitor visits value of unkown key
     fn deserialize_ignored_any<V>(self, visitor: V) -> Result<V::Value, Self::Error>
     where V: serde::de::Visitor<'de> {
-        #[cfg(debug_assertions)] {
-            assert!(matches!(self.side, ParsingSide::Value));
-        }
         let _ = self.next_section();
 
         self.side = ParsingSide::Name;
@@ -289,10 +286,6 @@ impl<'u, 'de> serde::Deserializer<'de> for &'u mut CookieDeserializer<'de> {
 
     fn deserialize_bytes<V>(self, visitor: V) -> Result<V::Value, Self::Error>
     where V: serde::de::Visitor<'de> {
-        #[cfg(debug_assertions)] {
-            assert!(self.side == ParsingSide::Value);
-        }
-
         match self.next_section()? {
             Cow::Borrowed(s) => visitor.visit_bytes(s.as_bytes()),
             Cow::Owned(s) => visitor.visit_byte_buf(s.into_bytes()),
@@ -300,19 +293,11 @@ impl<'u, 'de> serde::Deserializer<'de> for &'u mut CookieDeserializer<'de> {
     }
     fn deserialize_byte_buf<V>(self, visitor: V) -> Result<V::Value, Self::Error>
     where V: serde::de::Visitor<'de> {
-        #[cfg(debug_assertions)] {
-            assert!(self.side == ParsingSide::Value);
-        }
-
         self.deserialize_bytes(visitor)
     }
 
     fn deserialize_bool<V>(self, visitor: V) -> Result<V::Value, Self::Error>
     where V: serde::de::Visitor<'de> {
-        #[cfg(debug_assertions)] {
-            assert!(self.side == ParsingSide::Value);
-        }
-
         match &*self.next_section()? {
             "true"  => visitor.visit_bool(true),
             "false" => visitor.visit_bool(false),
@@ -324,9 +309,6 @@ impl<'u, 'de> serde::Deserializer<'de> for &'u mut CookieDeserializer<'de> {
 
     fn deserialize_f32<V>(self, visitor: V) -> Result<V::Value, Self::Error>
     where V: serde::de::Visitor<'de> {
-        #[cfg(debug_assertions)] {
-            assert!(self.side == ParsingSide::Value);
-        }
         let section = self.next_section()?;
         visitor.visit_f32(
             section.parse().map_err(|_| serde::de::Error::custom(
@@ -336,9 +318,6 @@ impl<'u, 'de> serde::Deserializer<'de> for &'u mut CookieDeserializer<'de> {
     }
     fn deserialize_f64<V>(self, visitor: V) -> Result<V::Value, Self::Error>
     where V: serde::de::Visitor<'de> {
-        #[cfg(debug_assertions)] {
-            assert!(self.side == ParsingSide::Value);
-        }
         let section = self.next_section()?;
         visitor.visit_f64(
             section.parse().map_err(|_| serde::de::Error::custom(
@@ -349,9 +328,6 @@ impl<'u, 'de> serde::Deserializer<'de> for &'u mut CookieDeserializer<'de> {
 
     fn deserialize_i8<V>(self, visitor: V) -> Result<V::Value, Self::Error>
     where V: serde::de::Visitor<'de> {
-        #[cfg(debug_assertions)] {
-            assert!(self.side == ParsingSide::Value);
-        }
         let section = self.next_section()?;
         visitor.visit_i8(
             section.parse().map_err(|_| serde::de::Error::custom(
@@ -361,9 +337,6 @@ impl<'u, 'de> serde::Deserializer<'de> for &'u mut CookieDeserializer<'de> {
     }
     fn deserialize_i16<V>(self, visitor: V) -> Result<V::Value, Self::Error>
     where V: serde::de::Visitor<'de> {
-        #[cfg(debug_assertions)] {
-            assert!(self.side == ParsingSide::Value);
-        }
         let section = self.next_section()?;
         visitor.visit_i16(
             section.parse().map_err(|_| serde::de::Error::custom(
@@ -373,9 +346,6 @@ impl<'u, 'de> serde::Deserializer<'de> for &'u mut CookieDeserializer<'de> {
     }
     fn deserialize_i32<V>(self, visitor: V) -> Result<V::Value, Self::Error>
     where V: serde::de::Visitor<'de> {
-        #[cfg(debug_assertions)] {
-            assert!(self.side == ParsingSide::Value);
-        }
         let section = self.next_section()?;
         visitor.visit_i32(
             section.parse().map_err(|_| serde::de::Error::custom(
@@ -385,9 +355,6 @@ impl<'u, 'de> serde::Deserializer<'de> for &'u mut CookieDeserializer<'de> {
     }
     fn deserialize_i64<V>(self, visitor: V) -> Result<V::Value, Self::Error>
     where V: serde::de::Visitor<'de> {
-        #[cfg(debug_assertions)] {
-            assert!(self.side == ParsingSide::Value);
-        }
         let section = self.next_section()?;
         visitor.visit_i64(
             section.parse().map_err(|_| serde::de::Error::custom(
@@ -398,9 +365,6 @@ impl<'u, 'de> serde::Deserializer<'de> for &'u mut CookieDeserializer<'de> {
 
     fn deserialize_u8<V>(self, visitor: V) -> Result<V::Value, Self::Error>
     where V: serde::de::Visitor<'de> {
-        #[cfg(debug_assertions)] {
-            assert!(self.side == ParsingSide::Value);
-        }
         let section = self.next_section()?;
         visitor.visit_u8(
             section.parse().map_err(|_| serde::de::Error::custom(
@@ -410,9 +374,6 @@ impl<'u, 'de> serde::Deserializer<'de> for &'u mut CookieDeserializer<'de> {
     }
     fn deserialize_u16<V>(self, visitor: V) -> Result<V::Value, Self::Error>
     where V: serde::de::Visitor<'de> {
-        #[cfg(debug_assertions)] {
-            assert!(self.side == ParsingSide::Value);
-        }
         let section = self.next_section()?;
         visitor.visit_u16(
             section.parse().map_err(|_| serde::de::Error::custom(
@@ -422,9 +383,6 @@ impl<'u, 'de> serde::Deserializer<'de> for &'u mut CookieDeserializer<'de> {
     }
     fn deserialize_u32<V>(self, visitor: V) -> Result<V::Value, Self::Error>
     where V: serde::de::Visitor<'de> {
-        #[cfg(debug_assertions)] {
-            assert!(self.side == ParsingSide::Value);
-        }
         let section = self.next_section()?;
         visitor.visit_u32(
             section.parse().map_err(|_| serde::de::Error::custom(
@@ -434,9 +392,6 @@ impl<'u, 'de> serde::Deserializer<'de> for &'u mut CookieDeserializer<'de> {
     }
     fn deserialize_u64<V>(self, visitor: V) -> Result<V::Value, Self::Error>
     where V: serde::de::Visitor<'de> {
-        #[cfg(debug_assertions)] {
-            assert!(self.side == ParsingSide::Value);
-        }
         let section = self.next_section()?;
         visitor.visit_u64(
             section.parse().map_err(|_| serde::de::Error::custom(
